@@ -46,9 +46,12 @@ def gen(rng, idx, tier):
         target = rng.choice([0, 100, 2000, 20000])
     if frag <= 3 and target > 400:
         target = 400
+    net = C.gen_net(rng)
+    if target > 1500 and net.get("seg") == "dribble":
+        net = {"seg": "random"}      # a byte-by-byte dribble of a large data set would outlast the DIMSE timeout
     return {"kind": "real", "scu_max": smax, "scp_max": rmax, "pad": target, "chunked_send": rng.randrange(4) == 0,
             "chunked_recv": rng.randrange(4) == 0, "find": rng.randrange(3) == 0,
-            "sched": {"switch_pct": rng.choice([5, 30])}, "net": C.gen_net(rng)}
+            "sched": {"switch_pct": rng.choice([5, 30])}, "net": net}
 
 
 def shrink(sc):
